@@ -199,7 +199,8 @@ class Names:
         "enum.lowercase_value": ["red", "camelCase", "snake_case"],
     }
 
-    STR_METHOD_VALUES = ["count", "title", "index", "lower", "upper", "format", "strip", "encode", "join", "split", "find", "replace"]
+    # (and Python soft keywords, which are ordinary attribute names)
+    STR_METHOD_VALUES = ["count", "title", "index", "lower", "upper", "format", "strip", "encode", "join", "split", "find", "replace", "match", "case", "type"]
 
     def enum_value(self) -> str:
         for cls_name, pool in self.ENUM_DIRTY.items():
